@@ -16,5 +16,5 @@ def run(ctx):
             if fs != "default":
                 r.rule += "@" + fs
         out += res
-    out.append(E.normaliser_rule(ctx.syn, "C17"))
+    out.append(E.normaliser_rule(ctx.syn, "C17", crate=ctx.mir("default")["ts_rs"]))
     return out
